@@ -55,8 +55,8 @@ fn check_case(prog: &T, env: &T, bases: &[ClvmFlags], acc: &mut Acc, space: &str
                         if !ob.ok {
                             // classification of one specific defect (known finding F-C07-softfork-noncanonical-ext)
                             if r.contains(ClvmFlags::CANONICAL_INTS) && !(*base | r).contains(ClvmFlags::NO_UNKNOWN_OPS) {
-                                if let Some(ext) = noncanonical_guard_ext(prog) {
-                                    acc.violation(format!("softfork extension argument {} is a non-canonical integer: with CANONICAL_INTS but without NO_UNKNOWN_OPS the guard is accepted as an unknown extension", hx(&ext)), format!("[{space}] {canon}: {} vs {}", or.brief(), ob.brief()));
+                                if let Some((which, ext)) = noncanonical_guard_arg(prog) {
+                                    acc.violation(format!("softfork {which} argument {} is a non-canonical integer: with CANONICAL_INTS but without NO_UNKNOWN_OPS the guard is accepted as an unknown extension", hx(&ext)), format!("[{space}] {canon}: {} vs {}", or.brief(), ob.brief()));
                                     acc.inc("known_class_occurrences");
                                     continue;
                                 }
@@ -64,8 +64,8 @@ fn check_case(prog: &T, env: &T, bases: &[ClvmFlags], acc: &mut Acc, space: &str
                             acc.violation(canon, format!("[{space}] succeeds with restriction flags ({}) but fails without them ({})", or.brief(), ob.brief()));
                         } else if or.cost != ob.cost || or.digest != ob.digest {
                             if r.contains(ClvmFlags::CANONICAL_INTS) && !(*base | r).contains(ClvmFlags::NO_UNKNOWN_OPS) {
-                                if let Some(ext) = noncanonical_guard_ext(prog) {
-                                    acc.violation(format!("softfork extension argument {} is a non-canonical integer: with CANONICAL_INTS but without NO_UNKNOWN_OPS the guard is accepted as an unknown extension", hx(&ext)), format!("[{space}] {canon}: {} vs {}", or.brief(), ob.brief()));
+                                if let Some((which, ext)) = noncanonical_guard_arg(prog) {
+                                    acc.violation(format!("softfork {which} argument {} is a non-canonical integer: with CANONICAL_INTS but without NO_UNKNOWN_OPS the guard is accepted as an unknown extension", hx(&ext)), format!("[{space}] {canon}: {} vs {}", or.brief(), ob.brief()));
                                     acc.inc("known_class_occurrences");
                                     continue;
                                 }
@@ -92,9 +92,13 @@ fn check_case(prog: &T, env: &T, bases: &[ClvmFlags], acc: &mut Acc, space: &str
                 // mempool mode as a whole, and the budget equal to the cost
                 let om = get(*base | MEMPOOL_MODE, CEILING, acc);
                 if om.ok && ob.ok {
+                    // the tightest budget: whatever mempool mode accepts with budget == its cost, the base flags
+                    // accept with that same budget and cost (a grandfathered guard may make BOTH fail here:
+                    // its declared cost, not its actual cost, must fit the budget)
+                    let ocm = get(*base | MEMPOOL_MODE, om.cost, acc);
                     let oc = get(*base, om.cost, acc);
-                    if !oc.ok || oc.cost != om.cost {
-                        acc.violation(format!("prog={} env={} base={:#x} mempool-cost-budget", prog.hex(), env.hex(), base.bits()), format!("[{space}] accepted in mempool mode with cost {} but consensus flags with that budget give {}", om.cost, oc.brief()));
+                    if ocm.ok && (!oc.ok || oc.cost != ocm.cost || oc.digest != ocm.digest) {
+                        acc.violation(format!("prog={} env={} base={:#x} mempool-cost-budget", prog.hex(), env.hex(), base.bits()), format!("[{space}] accepted in mempool mode with budget == cost {} but the base flags with that budget give {}", om.cost, oc.brief()));
                     }
                 }
             }
@@ -103,27 +107,42 @@ fn check_case(prog: &T, env: &T, bases: &[ClvmFlags], acc: &mut Acc, space: &str
 }
 
 /// if the program contains a guard (36 COST (q . EXT) ...) whose EXT is a non-canonical integer atom, return EXT
-fn noncanonical_guard_ext(t: &T) -> Option<Vec<u8>> {
+/// the first softfork guard in the program whose declared-cost or extension argument is a quoted atom that is a
+/// non-canonical unsigned integer (a leading zero byte that is not needed as a sign byte)
+fn noncanonical_guard_arg(t: &T) -> Option<(&'static str, Vec<u8>)> {
     fn noncanon(b: &[u8]) -> bool {
         !b.is_empty() && b[0] == 0 && (b.len() == 1 || b[1] & 0x80 == 0)
+    }
+    fn quoted_atom(t: &T) -> Option<&[u8]> {
+        if let T::P(q, v) = t {
+            if let (T::A(qb), T::A(vb)) = (&**q, &**v) {
+                if qb[..] == [1] {
+                    return Some(&vb[..]);
+                }
+            }
+        }
+        None
     }
     match t {
         T::A(_) => None,
         T::P(l, r) => {
-            if let (T::A(op), T::P(_cost, rest)) = (&**l, &**r) {
+            if let (T::A(op), T::P(cost, rest)) = (&**l, &**r) {
                 if op[..] == [36] {
+                    if let Some(cb) = quoted_atom(cost) {
+                        if noncanon(cb) {
+                            return Some(("declared-cost", cb.to_vec()));
+                        }
+                    }
                     if let T::P(ext, _) = &**rest {
-                        if let T::P(q, v) = &**ext {
-                            if let (T::A(qb), T::A(vb)) = (&**q, &**v) {
-                                if qb[..] == [1] && noncanon(vb) {
-                                    return Some(vb.to_vec());
-                                }
+                        if let Some(vb) = quoted_atom(ext) {
+                            if noncanon(vb) {
+                                return Some(("extension", vb.to_vec()));
                             }
                         }
                     }
                 }
             }
-            noncanonical_guard_ext(l).or_else(|| noncanonical_guard_ext(r))
+            noncanonical_guard_arg(l).or_else(|| noncanonical_guard_arg(r))
         }
     }
 }
@@ -150,6 +169,7 @@ pub fn run(ctx: &Ctx) -> Report {
         p1("P1", ops, ctx.pick(vec![vec![], vec![1], vec![0x00], vec![0x00, 0x01], vec![0x80]], a12()), vec![vec![2u8], vec![11]], 2),
         p_limits(!ctx.quick()),
         if ctx.quick() { p5_thin() } else { p5_full() },
+        p_guard_args(),
         p4(ctx.pick(6, 30), false),
     ];
     let seed = ctx.seed;
